@@ -2,10 +2,10 @@
 import importlib
 import io
 
-from extract_lib import generator, lean_bool, lean_list, write
+from extract_lib import generator, lean_bool, lean_list, lean_str, write
 
 # CONTENT_LENGTH: absent / valid / negative / garbage / non-ASCII digits (+ spellings int() accepts)
-CL = [None, "0", "5", " 5 ", "-3", "-0", "abc", "", "+5", "1_0", "５", "٥", "5x"]
+CL = [None, "0", "5", " 5 ", "-3", "-0", "abc", "", "+5", "1_0", "５", "٥", "5x", "5,5", "5, 7", "5;q=1", "x5"]
 TE = [None, "chunked"]
 TERM = [False, True]  # is the key "wsgi.input_terminated" present
 MAX = [None, 0, 4, 5, 6]  # relative to the valid length 5: none, <, =, >
@@ -74,3 +74,182 @@ def table : List Row := {lean_list(rows, 1)}
 end Wz.Gen.InputStream
 """
     return write("InputStream", body, "src/werkzeug/wsgi.py (get_input_stream), src/werkzeug/sansio/utils.py (get_content_length)")
+
+
+# --------------------------------------------------------------------------
+# structural facts (AST, no execution) about LimitedStream and the Request glue around the body stream
+
+
+def _src(path):
+    import os
+
+    from extract_lib import REPO
+
+    with open(os.path.join(REPO, "src", "werkzeug", *path.split("/"))) as f:
+        return f.read()
+
+
+def _cls(tree, name):
+    import ast
+
+    return next(n for n in tree.body if isinstance(n, ast.ClassDef) and n.name == name)
+
+
+def _fn(cls, name):
+    import ast
+
+    defs = [n for n in cls.body if isinstance(n, ast.FunctionDef) and n.name == name
+            and not any(ast.unparse(d).endswith("overload") for d in n.decorator_list)]
+    return defs[-1] if defs else None
+
+
+def _u(node):
+    import ast
+
+    return ast.unparse(node)
+
+
+def stream_facts():
+    """facts the hand model of LimitedStream / the Request glue transcribes; an unknown shape gives
+    False / 0 / [] and breaks the obligation"""
+    import ast
+
+    f = {"readallChunk": 0, "readintoHandlers": 0, "readintoCatches": [], "exhaustedIsGe": False, "exhaustedRaisesIffMax": False,
+         "disconnectRaisesUnlessCleanMax": False, "exhaustReadsUnlessExhausted": False, "tellIsPos": False,
+         "streamIsGuardedInput": False, "getDataReadsStreamOnce": False, "getDataCachesUnderFlag": False,
+         "getDataParsesUnderFlag": False, "parsingUsesCachedCopy": False, "closeTouchesOnlyFiles": False,
+         "loadFormStoresParserStream": False, "posWrites": 0}
+    L = _cls(ast.parse(_src("wsgi.py")), "LimitedStream")
+    ra = _fn(L, "readall")
+    if ra is not None:
+        reads = [n for n in ast.walk(ra) if isinstance(n, ast.Call) and _u(n.func) == "self.read"]
+        if len(reads) == 1 and len(reads[0].args) == 1 and not reads[0].keywords:
+            try:
+                v = eval(compile(ast.Expression(reads[0].args[0]), "<c09>", "eval"), {"__builtins__": {}})  # constant arithmetic: 1024 * 64
+            except Exception:
+                v = 0
+            f["readallChunk"] = int(v) if isinstance(v, int) and not isinstance(v, bool) else 0
+    ri = _fn(L, "readinto")
+    if ri is not None:
+        hs = [h for n in ast.walk(ri) if isinstance(n, ast.Try) for h in n.handlers]
+        f["readintoHandlers"] = len(hs)
+        names = set()
+        for h in hs:
+            t = h.type
+            names.add(tuple(sorted(_u(e) for e in t.elts)) if isinstance(t, ast.Tuple) else ((_u(t),) if t is not None else ("<bare>",)))
+        f["readintoCatches"] = list(next(iter(names))) if len(names) == 1 else []
+        f["posWrites"] = len([n for n in ast.walk(L) if isinstance(n, (ast.Assign, ast.AugAssign))
+                              and any(_u(t) == "self._pos" for t in (n.targets if isinstance(n, ast.Assign) else [n.target]))])
+    ie = _fn(L, "is_exhausted")
+    if ie is not None and len(ie.body) >= 1 and isinstance(ie.body[-1], ast.Return):
+        f["exhaustedIsGe"] = _u(ie.body[-1].value) == "self._pos >= self.limit"
+    oe = _fn(L, "on_exhausted")
+    if oe is not None:
+        body = [s for s in oe.body if not (isinstance(s, ast.Expr) and isinstance(s.value, ast.Constant))]
+        f["exhaustedRaisesIffMax"] = (len(body) == 1 and isinstance(body[0], ast.If) and _u(body[0].test) == "self._limit_is_max" and not body[0].orelse
+                                      and len(body[0].body) == 1 and _u(body[0].body[0]) == "raise RequestEntityTooLarge()")
+    od = _fn(L, "on_disconnect")
+    if od is not None:
+        body = [s for s in od.body if not (isinstance(s, ast.Expr) and isinstance(s.value, ast.Constant))]
+        f["disconnectRaisesUnlessCleanMax"] = (len(body) == 1 and isinstance(body[0], ast.If) and _u(body[0].test) == "not self._limit_is_max or error is not None"
+                                               and not body[0].orelse and len(body[0].body) == 1 and _u(body[0].body[0]) == "raise ClientDisconnected()")
+    ex = _fn(L, "exhaust")
+    if ex is not None:
+        body = [s for s in ex.body if not (isinstance(s, ast.Expr) and isinstance(s.value, ast.Constant))]
+        f["exhaustReadsUnlessExhausted"] = (len(body) == 2 and isinstance(body[0], ast.If) and _u(body[0].test) == "not self.is_exhausted"
+                                            and _u(body[0].body[0]) == "return self.readall()" and _u(body[1]) == "return b''")
+    tl = _fn(L, "tell")
+    if tl is not None and isinstance(tl.body[-1], ast.Return):
+        f["tellIsPos"] = _u(tl.body[-1].value) == "self._pos"
+
+    R = _cls(ast.parse(_src("wrappers/request.py")), "Request")
+    st = _fn(R, "stream")
+    if st is not None:
+        rets = [n for n in ast.walk(st) if isinstance(n, ast.Return)]
+        f["streamIsGuardedInput"] = (len(rets) == 1 and _u(rets[0].value).replace(" ", "").replace("\n", "")
+                                     == "get_input_stream(self.environ,max_content_length=self.max_content_length)")
+    gd = _fn(R, "get_data")
+    if gd is not None:
+        reads = [n for n in ast.walk(gd) if isinstance(n, ast.Call) and isinstance(n.func, ast.Attribute) and n.func.attr == "read"]
+        outer = [s for s in gd.body if isinstance(s, ast.If) and _u(s.test) == "rv is None"]
+        first = next((s for s in gd.body if isinstance(s, ast.Assign)), None)
+        ok_first = first is not None and _u(first) == "rv = getattr(self, '_cached_data', None)"
+        if ok_first and len(outer) == 1 and len(reads) == 1 and _u(reads[0]) == "self.stream.read()":
+            inner = outer[0].body
+            f["getDataReadsStreamOnce"] = any(_u(s) == "rv = self.stream.read()" for s in inner)
+            caches = [n for n in ast.walk(gd) if isinstance(n, ast.Assign) and any(_u(t) == "self._cached_data" for t in n.targets)]
+            flag = [s for s in inner if isinstance(s, ast.If) and _u(s.test) == "cache"]
+            f["getDataCachesUnderFlag"] = (len(caches) == 1 and len(flag) == 1 and not flag[0].orelse and len(flag[0].body) == 1
+                                           and _u(flag[0].body[0]) == "self._cached_data = rv")
+            pf = [s for s in inner if isinstance(s, ast.If) and _u(s.test) == "parse_form_data"]
+            loads = [n for n in ast.walk(gd) if isinstance(n, ast.Call) and _u(n.func) == "self._load_form_data"]
+            f["getDataParsesUnderFlag"] = (len(pf) == 1 and len(loads) == 1 and not pf[0].orelse and _u(pf[0].body[0]) == "self._load_form_data()"
+                                           and inner.index(pf[0]) < next(i for i, s in enumerate(inner) if _u(s) == "rv = self.stream.read()"))
+    gp = _fn(R, "_get_stream_for_parsing")
+    if gp is not None:
+        body = [s for s in gp.body if not (isinstance(s, ast.Expr) and isinstance(s.value, ast.Constant))]
+        f["parsingUsesCachedCopy"] = (len(body) == 3 and _u(body[0]) == "cached_data = getattr(self, '_cached_data', None)" and isinstance(body[1], ast.If)
+                                      and _u(body[1].test) == "cached_data is not None" and _u(body[1].body[0]) == "return BytesIO(cached_data)"
+                                      and not body[1].orelse and _u(body[2]) == "return self.stream")
+    cl = _fn(R, "close")
+    if cl is not None:
+        names = {n.attr for n in ast.walk(cl) if isinstance(n, ast.Attribute)} | {n.value for n in ast.walk(cl) if isinstance(n, ast.Constant) and isinstance(n.value, str) and len(n.value) < 30}
+        f["closeTouchesOnlyFiles"] = not ({"stream", "_cached_data", "environ", "input_stream", "get_data", "data", "form"} & names)
+    lf = _fn(R, "_load_form_data")
+    if lf is not None:
+        src = _u(lf)
+        f["loadFormStoresParserStream"] = ("d['stream'], d['form'], d['files'] = data" in src and "if 'form' in self.__dict__:\n        return" in src
+                                           and "self._get_stream_for_parsing()" in src and "if self.want_form_data_parsed:" in src)
+    return f
+
+
+@generator("InputStreamFacts")
+def gen_input_stream_facts():
+    f = stream_facts()
+
+    def b(k):
+        return lean_bool(bool(f[k]))
+
+    body = f"""namespace Wz.Gen.InputStreamFacts
+
+/-! facts read off the AST of `wsgi.LimitedStream` and of `wrappers.Request` (tools/gen/c09.py, no execution) -/
+
+/-- the argument of the single `self.read(...)` call inside `LimitedStream.readall`'s loop -/
+def readallChunk : Nat := {f["readallChunk"]}
+/-- number of `try` handlers in `LimitedStream.readinto` (one per path that calls the underlying stream) -/
+def readintoHandlers : Nat := {f["readintoHandlers"]}
+/-- the exception classes every one of them catches, sorted -/
+def readintoCatches : List String := [{", ".join(lean_str(x) for x in f["readintoCatches"])}]
+/-- number of statements in the class that assign `self._pos` (`__init__` and the one `+=` in readinto) -/
+def posWrites : Nat := {f["posWrites"]}
+/-- `is_exhausted` returns `self._pos >= self.limit` -/
+def exhaustedIsGe : Bool := {b("exhaustedIsGe")}
+/-- `on_exhausted` is `if self._limit_is_max: raise RequestEntityTooLarge()` -/
+def exhaustedRaisesIffMax : Bool := {b("exhaustedRaisesIffMax")}
+/-- `on_disconnect` is `if not self._limit_is_max or error is not None: raise ClientDisconnected()` -/
+def disconnectRaisesUnlessCleanMax : Bool := {b("disconnectRaisesUnlessCleanMax")}
+/-- `exhaust` is `if not self.is_exhausted: return self.readall()` / `return b""` -/
+def exhaustReadsUnlessExhausted : Bool := {b("exhaustReadsUnlessExhausted")}
+/-- `tell` returns `self._pos` -/
+def tellIsPos : Bool := {b("tellIsPos")}
+/-- `Request.stream` returns `get_input_stream(self.environ, max_content_length=self.max_content_length)`
+(safe_fallback left at its default) -/
+def streamIsGuardedInput : Bool := {b("streamIsGuardedInput")}
+/-- `get_data` starts from `getattr(self, "_cached_data", None)` and, only when that is `None`, reads
+`self.stream.read()` — the single read call of the method -/
+def getDataReadsStreamOnce : Bool := {b("getDataReadsStreamOnce")}
+/-- the only assignment to `self._cached_data` is `self._cached_data = rv` under `if cache:` -/
+def getDataCachesUnderFlag : Bool := {b("getDataCachesUnderFlag")}
+/-- `_load_form_data()` is called only under `if parse_form_data:` and before the read -/
+def getDataParsesUnderFlag : Bool := {b("getDataParsesUnderFlag")}
+/-- `_get_stream_for_parsing` returns `BytesIO(cached_data)` when `_cached_data` is set, else `self.stream` -/
+def parsingUsesCachedCopy : Bool := {b("parsingUsesCachedCopy")}
+/-- `close()` mentions neither the stream, the cached data nor the environ -/
+def closeTouchesOnlyFiles : Bool := {b("closeTouchesOnlyFiles")}
+/-- `_load_form_data` returns early when `form` is loaded, parses `_get_stream_for_parsing()` under
+`want_form_data_parsed`, and stores the parser's stream as `__dict__["stream"]` -/
+def loadFormStoresParserStream : Bool := {b("loadFormStoresParserStream")}
+
+end Wz.Gen.InputStreamFacts
+"""
+    return write("InputStreamFacts", body, "src/werkzeug/wsgi.py (LimitedStream), src/werkzeug/wrappers/request.py (Request)")
